@@ -775,10 +775,17 @@ pub fn evaluate(
                                 )
                             }
                             None => {
-                                return Verdict::violation(
-                                    "failed-type-list-missing",
-                                    format!("build {bi}: error does not list types: {e}"),
-                                )
+                                // The wording of the error is not part of the property: without
+                                // the familiar list, every unresolvable type must at least be
+                                // named somewhere in the error.
+                                if let Some(missing) =
+                                    model.unresolvable.iter().find(|t| !e.contains(t.as_str()))
+                                {
+                                    return Verdict::violation(
+                                        "failed-type-list-missing",
+                                        format!("build {bi}: `{missing}` is not named in: {e}"),
+                                    );
+                                }
                             }
                         }
                     }
